@@ -31,10 +31,12 @@ var c9mapKeys = []c9key{
 	{"0.3", "float|0.3", true, "0.300000"}, {"(0.1 + 0.2)", "float|0.30000000000000004", true, "0.300000"}, {"0.0", "float|0", true, "0.000000"},
 	{"1.0e-10", "float|1e-10", true, "0.000000"}, {"(1.0 / 4000000000.0)", "float|2.5e-10", true, "0.000000"}, {"1.0000000001", "float|1.0000000001", true, "1.000000"},
 	{"{zq: 0}.bear({a: 1})", "obj{a:1}", false, `{"a": 1}`}, {"{a: 1}.bear.bro({a: 1})", "obj{a:1}", false, `{"a": 1}`}, {"{zq: 0}.bear({})", "obj{}", false, "{}"},
+	// strs that differ only in the continuation bytes of a multi-byte character
+	{`"é"`, "str|é", true, `"é"`}, {`"è"`, "str|è", true, `"è"`}, {`"日本"`, "str|日本", true, `"日本"`}, {`"月曜"`, "str|月曜", true, `"月曜"`}, {`"e"`, "str|e", true, `"e"`},
 	{"{a: [1]}", "obj{a:[1]}", false, `{"a": [1]}`}, {"[0 + 1]", "arr[1]", false, "[1]"}, {"{'a: 1}", "obj{a:1}", false, `{"a": 1}`},
 }
 
-var c9objNames = []string{"a", "b", "c", "d", "e", "ab", "b1", "_p", "_q", "_a", "a!", "a?", "ab!", "b_", "a b", "a ", "1x", "", "Z", "Zb", "_p!", "_ p"}
+var c9objNames = []string{"a", "b", "c", "d", "e", "ab", "b1", "_p", "_q", "_a", "a!", "a?", "ab!", "b_", "a b", "a ", "1x", "", "Z", "Zb", "_p!", "_ p", "é", "è", "日本", "月曜", "ab\u0301"}
 
 var reC9Public = regexp.MustCompile(`^[a-zA-Z][a-zA-Z0-9_]*[!?]?$`)
 var reC9Ident = regexp.MustCompile(`^[a-zA-Z_][a-zA-Z0-9_]*[!?]?$`)
